@@ -171,6 +171,60 @@ def _f21(vio):
     return any(n["c"] == "RecordArray" for d in _layouts(vio) for _p, n in model.walk(d))
 
 
+def _op_of(vio):
+    det = vio.get("detail") or {}
+    op = det.get("op") if isinstance(det, dict) else None
+    if isinstance(op, dict):
+        return op
+    case = vio.get("case") or {}
+    if isinstance(case.get("op"), dict):
+        return case["op"]
+    return {}
+
+
+def _has_class(vio, names, keys=("layout", "A", "B", "C")):
+    from vlib import model
+    case = vio.get("case") or {}
+    ds = [case[k] for k in keys if isinstance(case.get(k), dict)]
+    op = _op_of(vio)
+    ds.extend(op.get("others", []) or [])
+    for d in ds:
+        for _p, n in model.walk(d):
+            if n["c"] in names:
+                return True
+    return False
+
+
+@mechanism("F28-reduce-sort-through-records")
+def _f28(vio):
+    op = _op_of(vio)
+    return vio.get("kind") in ("outcome-kind-differs", "value-differs", "wrong-value", "unexpected-error") and \
+        op.get("op") in ("reduce", "sort", "argsort") and _has_class(vio, ("RecordArray",))
+
+
+@mechanism("F29-merge-indexedarray-specialization")
+def _f29(vio):
+    return _op_of(vio).get("op") == "mergemany" and "unrecognized IndexedArray specialization" in str(vio.get("detail"))
+
+
+@mechanism("F24-merge-unknown-drops-parameters")
+def _f24(vio):
+    return vio.get("kind") == "value-differs" and _op_of(vio).get("op") == "mergemany" and \
+        _has_class(vio, ("EmptyArray",))
+
+
+@mechanism("F25-merge-regular-vs-numpy")
+def _f25(vio):
+    return vio.get("kind") == "outcome-kind-differs" and _op_of(vio).get("op") == "mergemany" and \
+        "cannot merge ListArray64 with NumpyArray" in str(vio.get("detail")) and _has_class(vio, ("RegularArray",))
+
+
+@mechanism("F26-combinations-through-records")
+def _f26(vio):
+    return vio.get("kind") == "value-differs" and _op_of(vio).get("op") == "combinations" and \
+        _has_class(vio, ("RecordArray",))
+
+
 @mechanism("F10-reduce-nonlocal")
 def _f10(vio):
     rep = _report(vio)
